@@ -467,8 +467,9 @@ func (a *adapter) worldOf(T, I uint32, h0 int) *world {
 		wd.stab = true
 		a.setParams(wd)
 		parent := wd.setup[len(wd.setup)-1]
-		s4 := []*atx{mk("topup", "M1", "", 300*lemo, 130000), mk("topup", "M2", "", 400*lemo, 130000),
-			mk("vote", "M1", "a3", 0, 40000), mk("vote", "a4", "a3", 0, 40000)}
+		// (the votes come first: a vote after a balance change in the same block is Dev_VoteUsesPreTxBalance)
+		s4 := []*atx{mk("vote", "M1", "a3", 0, 40000), mk("vote", "a4", "a3", 0, 40000),
+			mk("topup", "M1", "", 300*lemo, 130000), mk("topup", "M2", "", 400*lemo, 130000)}
 		parent = a.buildOn(a.gen, parent, a.realAll(s4), s4, "S4."+key)
 		wd.setup = append(wd.setup, parent)
 		for int(parent.Height()) < h0 {
